@@ -1858,4 +1858,278 @@ theorem deltaSoft_one : deltaSoft 1 = 1 := by decide +kernel
 example : deltaSoft 55 = 54 ∧ deltaSoft 57 = 56 ∧ deltaSoft 110 = 109 ∧ deltaSoft 12800 = 12800 ∧
     deltaSoft 100000000 = 100000000 := by decide +kernel
 
+/-! ## zero-tolerant windows, frames with dead time, boundary count, longer channels (deepening round D) -/
+
+theorem sum_filter_split {β} (f : β → Int) (p q : β → Bool) : ∀ (l : List β),
+    ((l.filter p).map f).sum = ((l.filter (fun s => p s && q s)).map f).sum +
+      ((l.filter (fun s => p s && !q s)).map f).sum
+  | [] => by simp
+  | a :: t => by
+    have ih := sum_filter_split f p q t
+    simp only [List.filter_cons]
+    cases hp : p a <;> cases hq : q a <;> simp [ih] <;> omega
+
+theorem sum_map_zero {β} (f : β → Int) : ∀ (l : List β), (∀ x ∈ l, f x = 0) → (l.map f).sum = 0
+  | [], _ => by simp
+  | a :: t, h => by
+    simp only [List.map_cons, List.sum_cons, h a (by simp),
+      sum_map_zero f t (fun x hx => h x (List.mem_cons_of_mem _ hx))]
+    rfl
+
+/-- `window_raw` for totals: elements of the full stream inside the window that are missing from the
+    sub-stream may be present as long as their value is zero -/
+theorem window_raw_sum {β} (δ dt : Int) (h1 : 1 ≤ δ) (h2 : δ ≤ dt) (key val : β → Int) (SP UP : List β)
+    (hsep : Sep dt key SP) (hsub : UP.Sublist SP) (a b : Nat) (hab : a ≤ b) (hb : b < UP.length)
+    (lo hi : Int) (hlo : lo = key (UP[a]'(by omega))) (hhi : hi = key UP[b])
+    (hzero : ∀ s ∈ SP, lo ≤ key s → key s ≤ hi → key s ∉ UP.map key → val s = 0) :
+    ((SP.filter (fun s => decide (lo ≤ key s) && decide (key s < hi + δ))).map val).sum
+      = (((UP.drop a).take (b + 1 - a)).map val).sum ∧
+    SP.filter (fun s => decide (lo ≤ key s) && decide (key s < hi + δ)) ≠ [] := by
+  have hdt : 0 < dt := by omega
+  constructor
+  · rw [sum_filter_split val _ (fun s => decide (key s ∈ UP.map key))]
+    have p1 : SP.filter (fun s => (decide (lo ≤ key s) && decide (key s < hi + δ)) && decide (key s ∈ UP.map key))
+        = (UP.drop a).take (b + 1 - a) := by
+      rw [← List.filter_filter, ← sublist_eq_filter_key hdt key hsep hsub]
+      exact filter_window δ h1 key UP ((hsep.sublist hsub).mono h2) a b hab hb lo hi hlo hhi
+    have z : ((SP.filter (fun s => (decide (lo ≤ key s) && decide (key s < hi + δ)) &&
+        !decide (key s ∈ UP.map key))).map val).sum = 0 := by
+      apply sum_map_zero
+      intro s hs
+      rcases List.mem_filter.mp hs with ⟨hsm, hc⟩
+      simp only [Bool.and_eq_true, decide_eq_true_eq, Bool.not_eq_true', decide_eq_false_iff_not] at hc
+      have hle : key s ≤ hi := by
+        rcases Int.lt_or_le hi (key s) with h | h
+        · have hbm : UP[b] ∈ SP := hsub.subset (List.getElem_mem _)
+          have := hsep.of_key_lt hdt hbm hsm (by omega)
+          omega
+        · exact h
+      exact hzero s hsm hc.1.1 hle hc.2
+    rw [p1, z]
+    omega
+  · intro h
+    have hm : UP[a]'(by omega) ∈ SP := hsub.subset (List.getElem_mem _)
+    have hle := ((hsep.sublist hsub).mono (show (0 : Int) ≤ dt by omega)).getElem_le (by omega) (i := a) (j := b) (by omega) hab
+    have : UP[a]'(by omega) ∈ SP.filter (fun s => decide (lo ≤ key s) && decide (key s < hi + δ)) := by
+      rw [List.mem_filter]
+      refine ⟨hm, ?_⟩
+      simp only [Bool.and_eq_true, decide_eq_true_eq]
+      omega
+    rw [h] at this
+    simp at this
+
+/-- channel side: `downsampled_over(line ranges, np.sum)` yields, for every line, the total of the
+    line's used data — provided every discarded sample inside a line carries a zero -/
+theorem sumOver_blocks_zero (w : Wave) (data : List Int) (hlen : data.length = w.iw.length)
+    (hdt : 0 < w.dt) (hs : 0 ≤ w.start) (k : Nat) (hk : w.pixelSize = some k) (P : Nat) (hP : 0 < P)
+    (δ : Int) (h1 : 1 ≤ δ) (h2 : δ ≤ w.dt)
+    (hzero : ∀ l, l < numBlocks (w.usedTs.length / k) P → ∀ s ∈ C01.samplesFrom w.start w.dt data,
+      w.usedTs.getD (l * P * k) 0 ≤ s.1 →
+      s.1 ≤ w.usedTs.getD (min ((l + 1) * P) (w.usedTs.length / k) * k - 1) 0 → s.1 ∉ w.usedTs → s.2 = 0)
+    (rs : List (Int × Int)) (hrs : w.lineRangesExcl P δ = some rs) :
+    sumOver ⟨w.start, w.dt, data⟩ rs =
+      (List.range (numBlocks (w.usedTs.length / k) P)).map
+        (blockSum (usedOf w.iw data) k (w.usedTs.length / k) P) := by
+  have hk0 := pixelSize_pos w k hk
+  rw [lineRangesExcl_spec w hdt hs k hk P hP δ] at hrs
+  injection hrs with hrs
+  subst hrs
+  unfold Wave.numPix
+  -- the sample stream of the channel and its used part
+  have hSPfst : (C01.samplesFrom w.start w.dt data).map (·.1) = w.allTs := by
+    rw [samplesFrom_fst, hlen]; rfl
+  have hsepSP : Sep w.dt (fun s : C01.Sample => s.1) (C01.samplesFrom w.start w.dt data) := by
+    have := allTs_sep w hdt
+    rw [← hSPfst] at this
+    exact List.pairwise_map.mp this
+  have hUPfst : (usedOf w.iw (C01.samplesFrom w.start w.dt data)).map (·.1) = w.usedTs := by
+    rw [usedOf_map, hSPfst]; rfl
+  have hUPsnd : (usedOf w.iw (C01.samplesFrom w.start w.dt data)).map (·.2) = usedOf w.iw data := by
+    rw [usedOf_map, samplesFrom_snd]
+  have hUPlen : (usedOf w.iw (C01.samplesFrom w.start w.dt data)).length = w.usedTs.length := by
+    rw [← hUPfst, List.length_map]
+  -- facts per line
+  have key : ∀ l, l < numBlocks (w.usedTs.length / k) P →
+      (((C01.Cont.slice ⟨w.start, w.dt, data⟩ (w.usedTs.getD (l * P * k) 0)
+        (w.usedTs.getD (min ((l + 1) * P) (w.usedTs.length / k) * k - 1) 0 + δ)).samples.map (·.2)).sum
+      = ((((usedOf w.iw (C01.samplesFrom w.start w.dt data)).drop (l * P * k)).take
+          ((min ((l + 1) * P) (w.usedTs.length / k) - l * P) * k)).map (·.2)).sum ∧
+      (C01.Cont.slice ⟨w.start, w.dt, data⟩ (w.usedTs.getD (l * P * k) 0)
+        (w.usedTs.getD (min ((l + 1) * P) (w.usedTs.length / k) * k - 1) 0 + δ)).samples ≠ []) ∧
+      0 < (min ((l + 1) * P) (w.usedTs.length / k) - l * P) * k ∧
+      l * P * k + (min ((l + 1) * P) (w.usedTs.length / k) - l * P) * k ≤ w.usedTs.length ∧
+      w.start ≤ w.usedTs.getD (l * P * k) 0 ∧
+      w.usedTs.getD (min ((l + 1) * P) (w.usedTs.length / k) * k - 1) 0 + δ
+        ≤ w.start + (data.length : Int) * w.dt := by
+    intro l hl
+    have hlt := (lt_numBlocks_iff _ _ _ hP).mp hl
+    have hP1 : (l + 1) * P = l * P + P := by rw [Nat.add_mul]; omega
+    have hmin : l * P + 1 ≤ min ((l + 1) * P) (w.usedTs.length / k) := by omega
+    have he1 : (l * P + 1) * k ≤ min ((l + 1) * P) (w.usedTs.length / k) * k := Nat.mul_le_mul_right _ hmin
+    have he2 : min ((l + 1) * P) (w.usedTs.length / k) * k ≤ w.usedTs.length / k * k :=
+      Nat.mul_le_mul_right _ (Nat.min_le_right _ _)
+    have he3 := Nat.div_mul_le_self w.usedTs.length k
+    rw [Nat.add_mul] at he1
+    have hsub : (min ((l + 1) * P) (w.usedTs.length / k) - l * P) * k
+        = min ((l + 1) * P) (w.usedTs.length / k) * k - 1 + 1 - l * P * k := by
+      rw [Nat.sub_mul]; omega
+    have ha : l * P * k < w.usedTs.length := by omega
+    have hb : min ((l + 1) * P) (w.usedTs.length / k) * k - 1 < w.usedTs.length := by omega
+    have hslice := C01.cont_slice_samples ⟨w.start, w.dt, data⟩ hdt (w.usedTs.getD (l * P * k) 0)
+      (w.usedTs.getD (min ((l + 1) * P) (w.usedTs.length / k) * k - 1) 0 + δ)
+    refine ⟨?_, by omega, by omega, ?_, ?_⟩
+    · rw [hslice, hsub]
+      have hlo : w.usedTs.getD (l * P * k) 0
+          = ((usedOf w.iw (C01.samplesFrom w.start w.dt data))[l * P * k]'(by rw [hUPlen]; omega)).1 := by
+        rw [getD_eq _ _ ha]
+        simp only [← hUPfst, List.getElem_map]
+      have hhi : w.usedTs.getD (min ((l + 1) * P) (w.usedTs.length / k) * k - 1) 0
+          = ((usedOf w.iw (C01.samplesFrom w.start w.dt data))[min ((l + 1) * P) (w.usedTs.length / k) * k - 1]'(by rw [hUPlen]; omega)).1 := by
+        rw [getD_eq _ _ hb]
+        simp only [← hUPfst, List.getElem_map]
+      exact window_raw_sum δ w.dt h1 h2 (fun s : C01.Sample => s.1) (fun s : C01.Sample => s.2) _ _ hsepSP
+        (usedOf_sublist _ _) (l * P * k)
+        (min ((l + 1) * P) (w.usedTs.length / k) * k - 1) (by omega) (by rw [hUPlen]; omega) _ _ hlo hhi
+        (fun s hsm hl1 hl2 hnot => by
+          rw [hUPfst] at hnot
+          exact hzero l hl s hsm hl1 hl2 hnot)
+    · rw [getD_eq _ _ ha]
+      exact usedTs_ge w hdt _ (List.getElem_mem _)
+    · rw [getD_eq _ _ hb, hlen]
+      have hmem : w.usedTs[min ((l + 1) * P) (w.usedTs.length / k) * k - 1] ∈ w.allTs :=
+        (usedTs_sublist w).subset (List.getElem_mem _)
+      have := times_stop w.dt hdt _ _ _ hmem
+      omega
+  unfold sumOver
+  rw [List.filter_eq_self.mpr]
+  · rw [List.filterMap_map]
+    apply filterMap_eq_map_of
+    intro l hl
+    have hl := List.mem_range.mp hl
+    obtain ⟨⟨hsl, hne⟩, hpos, hle, _, _⟩ := key l hl
+    simp only [Function.comp]
+    rw [if_neg (by simpa using hne), hsl]
+    simp only [blockSum, List.map_take, List.map_drop, hUPsnd]
+  · intro r hr
+    rcases List.mem_map.mp hr with ⟨l, hl, rfl⟩
+    have hl := List.mem_range.mp hl
+    obtain ⟨_, _, _, hc1, hc2⟩ := key l hl
+    simp only [C01.Cont.stop]
+    rw [Bool.and_eq_true]
+    exact ⟨decide_eq_true hc1, decide_eq_true hc2⟩
+
+theorem frameRanges_single_incl (w : Wave) (k : Nat) (hdt : 0 < w.dt)
+    (hk : w.pixelSize = some k) (P L : Nat) (δ : Int)
+    (h1 : numBlocks (w.usedTs.length / k) (L * P) = 1) :
+    w.frameRanges P L true δ = w.frameRanges P L false δ := by
+  unfold Wave.frameRanges
+  rw [pixReduce_min w hdt k hk, pixReduce_max w hdt k hk]
+  simp only [padRows_length, List.length_map, List.length_range]
+  rw [if_pos h1, if_pos h1]
+
+theorem count2_pixelCodes (k : Nat) : ((pixelCodes k).filter (· == 2)).length = 1 := by
+  unfold pixelCodes
+  rw [List.filter_append, List.filter_eq_nil_iff.mpr]
+  · rfl
+  · intro x hx
+    rw [(List.mem_replicate.mp hx).2]; decide
+
+theorem count2_pixels (k : Nat) : ∀ (m : Nat),
+    ((List.replicate m (pixelCodes k)).flatten.filter (· == 2)).length = m
+  | 0 => rfl
+  | m + 1 => by
+    rw [List.replicate_succ, List.flatten_cons, List.filter_append, List.length_append,
+      count2_pixelCodes, count2_pixels k m]; omega
+
+/-- a regular wave has one pixel-boundary code per complete pixel -/
+theorem Wave.Regular.numBoundaries {w : Wave} {k m r : Nat} (h : w.Regular k m r) :
+    w.numBoundaries = m := by
+  obtain ⟨_, _, _, hs⟩ := h
+  have e : w.iw.filter (· == 2) = w.subset.filter (· == 2) := by
+    unfold Wave.subset
+    rw [List.filter_filter]
+    apply List.filter_congr
+    intro x _
+    by_cases hx : x = 2
+    · subst hx; rfl
+    · simp [hx]
+  unfold Wave.numBoundaries
+  rw [e, hs, List.filter_append, List.length_append, count2_pixels,
+    List.filter_eq_nil_iff.mpr (by intro x hx; rw [(List.mem_replicate.mp hx).2]; decide)]
+  rfl
+
+theorem samplesFrom_append (dt : Int) : ∀ (A B : List Int) (t0 : Int),
+    C01.samplesFrom t0 dt (A ++ B) = C01.samplesFrom t0 dt A ++ C01.samplesFrom (t0 + A.length * dt) dt B
+  | [], B, t0 => by simp [C01.samplesFrom]
+  | a :: A, B, t0 => by
+    simp only [List.cons_append, C01.samplesFrom, samplesFrom_append dt A B (t0 + dt), List.length_cons]
+    have : t0 + dt + (A.length : Int) * dt = t0 + ((A.length + 1 : Nat) : Int) * dt := by
+      rw [Int.natCast_add, Int.add_mul]; omega
+    rw [this]
+
+theorem samplesFrom_time_bounds (dt : Int) (hdt : 0 < dt) (A : List Int) (t0 : Int) :
+    ∀ s ∈ C01.samplesFrom t0 dt A, t0 ≤ s.1 ∧ s.1 + dt ≤ t0 + A.length * dt := by
+  intro s hs
+  have hm : s.1 ∈ times t0 dt A.length := by
+    rw [← samplesFrom_fst]; exact List.mem_map_of_mem hs
+  exact ⟨(times_sep dt hdt _ _).2 _ hm, times_stop dt hdt _ _ _ hm⟩
+
+theorem filterMap_congr_mem {α β} (f g : α → Option β) : ∀ (l : List α), (∀ x ∈ l, f x = g x) →
+    l.filterMap f = l.filterMap g
+  | [], _ => rfl
+  | a :: t, h => by
+    rw [List.filterMap_cons, List.filterMap_cons, h a (by simp),
+      filterMap_congr_mem f g t (fun x hx => h x (List.mem_cons_of_mem _ hx))]
+
+/-- **A channel that extends beyond the acquisition gives the same reduction**: samples recorded before
+    the first or after the last sample of the acquisition (`pre`, `post`, on the same sampling grid) never
+    enter a range that lies within the acquisition. -/
+theorem sumOver_extend (start dt : Int) (hdt : 0 < dt) (pre data post : List Int)
+    (rs : List (Int × Int))
+    (hcov : ∀ r ∈ rs, start ≤ r.1 ∧ r.2 ≤ start + data.length * dt) :
+    sumOver ⟨start - pre.length * dt, dt, pre ++ (data ++ post)⟩ rs = sumOver ⟨start, dt, data⟩ rs := by
+  have hpost : 0 ≤ (post.length : Int) * dt := Int.mul_nonneg (by omega) (by omega)
+  have hpre : 0 ≤ (pre.length : Int) * dt := Int.mul_nonneg (by omega) (by omega)
+  unfold sumOver
+  rw [List.filter_eq_self.mpr, List.filter_eq_self.mpr]
+  · apply filterMap_congr_mem
+    intro r hr
+    have hc := hcov r hr
+    have e : (C01.Cont.slice ⟨start - pre.length * dt, dt, pre ++ (data ++ post)⟩ r.1 r.2).samples
+        = (C01.Cont.slice ⟨start, dt, data⟩ r.1 r.2).samples := by
+      rw [C01.cont_slice_samples _ hdt, C01.cont_slice_samples _ hdt]
+      unfold C01.Cont.samples
+      simp only []
+      rw [samplesFrom_append, samplesFrom_append, List.filter_append, List.filter_append]
+      have e0 : start - (pre.length : Int) * dt + (pre.length : Int) * dt = start := by omega
+      rw [e0]
+      have z1 : (C01.samplesFrom (start - pre.length * dt) dt pre).filter (C01.inWin r.1 r.2) = [] := by
+        rw [List.filter_eq_nil_iff]
+        intro s hs
+        have := (samplesFrom_time_bounds dt hdt pre _ s hs).2
+        simp only [C01.inWin, Bool.and_eq_true, decide_eq_true_eq, not_and]
+        intro; omega
+      have z2 : (C01.samplesFrom (start + data.length * dt) dt post).filter (C01.inWin r.1 r.2) = [] := by
+        rw [List.filter_eq_nil_iff]
+        intro s hs
+        have := (samplesFrom_time_bounds dt hdt post _ s hs).1
+        simp only [C01.inWin, Bool.and_eq_true, decide_eq_true_eq, not_and]
+        intro; omega
+      rw [z1, z2]; simp
+    rw [e]
+  · intro r hr
+    have hc := hcov r hr
+    simp only [C01.Cont.stop]
+    rw [Bool.and_eq_true]
+    exact ⟨decide_eq_true hc.1, decide_eq_true hc.2⟩
+  · intro r hr
+    have hc := hcov r hr
+    simp only [C01.Cont.stop, List.length_append]
+    rw [Bool.and_eq_true]
+    have : ((pre.length + (data.length + post.length) : Nat) : Int) * dt
+        = pre.length * dt + data.length * dt + post.length * dt := by
+      rw [Int.natCast_add, Int.natCast_add, Int.add_mul, Int.add_mul]; omega
+    refine ⟨decide_eq_true (by omega), decide_eq_true ?_⟩
+    rw [this]; omega
+
 end Verif.C03
